@@ -72,13 +72,19 @@ def limit_ms(limit):
     return -1 if is_sched(limit) else int(limit*1000)
 
 
+EAGER_MAX = [None]      # configuration: EncoderSelector.n_mat_max_eager for the selections of this process (None = default)
+
+
 def select(st, limit):
     """limit: seconds (the real time limiter) or 'sched:<spec>' (the adversary above in place of the limiter)."""
     from adsg_core.optimization.assign_enc import selector as selmod
     from adsg_core.optimization.assign_enc.selector import EncoderSelector
     old = EncoderSelector.encoding_timeout
     old_rt = selmod.run_timeout
+    old_em = EncoderSelector.n_mat_max_eager
     try:
+        if EAGER_MAX[0] is not None:
+            EncoderSelector.n_mat_max_eager = EAGER_MAX[0]
         if is_sched(limit):
             EncoderSelector(st).initialize_numba()
             selmod.run_timeout = Adversary(limit.split(':', 1)[1])
@@ -87,6 +93,7 @@ def select(st, limit):
         return EncoderSelector(st).get_best_assignment_manager()
     finally:
         EncoderSelector.encoding_timeout = old
+        EncoderSelector.n_mat_max_eager = old_em
         selmod.run_timeout = old_rt
 
 
@@ -110,8 +117,10 @@ def child_main(infile, outfile):
         json.dump(out, fh)
 
 
-def drive(sd, workdir, tid=0, limit=2.0, other=None, seed=0):
-    """One settings description through the cache histories {cold, warm, written by another process}."""
+def drive(sd, workdir, tid=0, limit=2.0, other=None, seed=0, eager_max=None):
+    """One settings description through the cache histories {cold, warm, written by another process}.
+    eager_max: the configuration value n_mat_max_eager (small: the 'lazy first, eager later' selection stages are used)."""
+    EAGER_MAX[0] = eager_max
     import random
     from adsg_core.optimization.assign_enc.matrix import AggregateAssignmentMatrixGenerator
     rng = random.Random(seed*77+tid)
@@ -205,6 +214,14 @@ def key_pairs(rng, n):
     """Pairs of settings that differ in exactly one field of the cache key."""
     from harness import gen_conn
     out = []
+    # deterministic pairs: no explicit limit on parallel connections vs the value the default takes for the whole settings
+    # (the default is derived per existence pattern from the connectors present, an explicit value is not)
+    c = gen_conn.conn
+    hi = {'dl': [0, 1, 2, 3], 'dmin': 0, 'dmax': 0}
+    for src, tgt, ct in (([c(gen_conn.ALPHABET[7], True)], [c(hi, True), c(gen_conn.ALPHABET[7], True)], [True, False]),
+                         ([c(gen_conn.ALPHABET[6], True)], [c(gen_conn.ALPHABET[7], True), c(hi, True)], [False, True])):
+        pats = gen_conn.all_patterns(1, 2, [False], ct)
+        out.append((gen_conn.sdesc(src, tgt, pats=pats, mcp=0), gen_conn.sdesc(src, tgt, pats=pats, mcp=3), 'mcp_default'))
     while len(out) < n:
         a = gen_conn.random_sdesc(rng, max_s=2, max_t=2)
         b = json.loads(json.dumps(a))
